@@ -3,6 +3,7 @@ package rules
 import (
 	"go/token"
 	"go/types"
+	"strings"
 
 	"golang.org/x/tools/go/ssa"
 
@@ -38,9 +39,30 @@ func memoDependencies(r *an.Run, rule string) {
 		}
 		return an.IsNamed(fa.X.Type(), enginePath, "matcherCompiler")
 	}
-	loadsRecord := func(v ssa.Value) bool {
-		u, ok := v.(*ssa.UnOp)
-		return ok && u.Op == token.MUL && isRecordField(u.X)
+	var loadsRecord func(v ssa.Value) bool
+	loadsRecord = func(v ssa.Value) bool {
+		if u, ok := v.(*ssa.UnOp); ok {
+			return u.Op == token.MUL && isRecordField(u.X)
+		}
+		// a parameter of a private helper that is handed the record at every call site
+		if p, ok := v.(*ssa.Parameter); ok && p.Parent() != nil {
+			callers := r.P.CallersOf(p.Parent())
+			if len(callers) == 0 {
+				return false
+			}
+			for i, q := range p.Parent().Params {
+				if q != p {
+					continue
+				}
+				for _, c := range callers {
+					if c.Common().StaticCallee() != p.Parent() || i >= len(an.CallArgs(c)) || !loadsRecord(an.CallArgs(c)[i]) {
+						return false
+					}
+				}
+				return true
+			}
+		}
+		return false
 	}
 	lenOfRecord := func(v ssa.Value) bool {
 		c, ok := v.(*ssa.Call)
@@ -423,6 +445,13 @@ func keysAreInsertionOrdered(r *an.Run) {
 					good, why = false, "the stored key list is not filled from a Keys() result"
 				}
 			default:
+				if phi, isPhi := v.(*ssa.Phi); isPhi && recv != nil {
+					// the chain walked with a loop instead of recursion
+					if msg := iterativeKeysOldestFirst(r, f, recv, phi); msg != "" {
+						good, why = false, msg
+					}
+					continue
+				}
 				app, ok := v.(*ssa.Call)
 				if !ok || !an.IsCallTo(app, "builtin:append") {
 					good, why = false, "Keys() returns something other than append(<keys of the underlying Data>, <own key>)"
@@ -514,6 +543,42 @@ func leaves(v ssa.Value, g *ssa.Function, callers func(*ssa.Function) []ssa.Call
 					fs = append(fs, g.Parent().AnonFuncs...)
 				}
 				fs = append(fs, g.AnonFuncs...)
+				// a field of a builder object that lives across calls: every store to that field of that struct
+				// type in the package (the literal that creates the object, the method that moves the boundary)
+				if fa, isFA := x.X.(*ssa.FieldAddr); isFA && an.Current != nil {
+					if pt, isPtr := fa.X.Type().Underlying().(*types.Pointer); isPtr {
+						n := 0
+						for _, h := range an.Current.ModuleFuncs() {
+							if h.Pkg != g.Pkg {
+								continue
+							}
+							for _, b := range h.Blocks {
+								for _, in := range b.Instrs {
+									st, ok := in.(*ssa.Store)
+									if !ok {
+										continue
+									}
+									fb, ok := st.Addr.(*ssa.FieldAddr)
+									if !ok || fb.Field != fa.Field {
+										continue
+									}
+									pb, ok := fb.X.Type().Underlying().(*types.Pointer)
+									if !ok || !types.Identical(pb.Elem(), pt.Elem()) {
+										continue
+									}
+									if _, named := pt.Elem().(*types.Named); !named {
+										continue
+									}
+									n++
+									walk(st.Val, h, depth+1)
+								}
+							}
+						}
+						if n > 0 && h0IsHelperField(fa) {
+							return
+						}
+					}
+				}
 				for _, h := range fs {
 					for _, b := range h.Blocks {
 						for _, in := range b.Instrs {
@@ -601,4 +666,195 @@ func feedsBoundary(nl, low ssa.Value, g *ssa.Function) bool {
 		}
 	}
 	return false
+}
+
+// iterativeKeysOldestFirst decides the loop form of Keys():
+//
+//	newest := []any{d.k}                      // own key, then — walking DOWN the chain —
+//	for link != nil { newest = append(newest, link.k); base, link = below(link) }
+//	keys := base.Keys()                       // the keys of what the oldest link was built on
+//	for i := len(newest)-1; i >= 0; i-- { keys = append(keys, newest[i]) }
+//
+// that is Keys(base) followed by the chain's keys from the oldest link up to
+// the receiver's own — the same list as the recursive definition
+// Keys(d) = Keys(d.Data) ++ [d.k] unrolled. It returns "" or what is wrong.
+func iterativeKeysOldestFirst(r *an.Run, f *ssa.Function, recv *ssa.Parameter, keysPhi *ssa.Phi) string {
+	l2 := an.LoopOf(f, keysPhi.Block())
+	if l2 == nil || l2.Header != keysPhi.Block() {
+		return "the list returned is not built by a loop"
+	}
+	il := an.AsIndexLoop(l2)
+	if il == nil || !il.Descending || !il.Full() {
+		return "the loop that builds the returned list does not run from the last index of the collected keys down to 0 (the chain is walked newest first, so its keys must be appended in reverse)"
+	}
+	lc, ok := il.Bound.(*ssa.Call)
+	if !ok || !an.IsCallTo(lc, "builtin:len") {
+		return "the reversing loop does not run over a list"
+	}
+	newest := lc.Call.Args[0]
+	// keys = append(keys, newest[i]) and nothing else
+	var k0 ssa.Value
+	for i, e := range keysPhi.Edges {
+		if !l2.Blocks[keysPhi.Block().Preds[i]] {
+			k0 = e
+			continue
+		}
+		app, ok := e.(*ssa.Call)
+		if !ok || !an.IsCallTo(app, "builtin:append") || app.Call.Args[0] != ssa.Value(keysPhi) {
+			return "inside the reversing loop the list is not extended by append"
+		}
+		els := appendedElements(app)
+		if len(els) != 1 {
+			return "the reversing loop appends something other than one collected key"
+		}
+		_, base, idx, isElem := elemAccess(els[0])
+		if !isElem || base != newest || idx != il.Index {
+			return "the reversing loop appends something other than element i of the collected keys"
+		}
+		if il.CoversAll(app, nil) != "" {
+			return "the reversing loop skips collected keys"
+		}
+	}
+	kc, ok := k0.(*ssa.Call)
+	if !ok || !kc.Call.IsInvoke() || kc.Call.Method.Name() != "Keys" {
+		return "the returned list does not start with the Keys() of the Data below the chain"
+	}
+	// the collecting loop
+	newestPhi, ok := newest.(*ssa.Phi)
+	if !ok {
+		return "the collected keys are not built by a loop"
+	}
+	l1 := an.LoopOf(f, newestPhi.Block())
+	if l1 == nil || l1.Header != newestPhi.Block() {
+		return "the collected keys are not built by a loop"
+	}
+	link, st, fld := chainWalker(l1)
+	if link == nil {
+		return "the collecting loop does not walk down the chain link by link"
+	}
+	if !linkFieldIsSetOnceAtCreation(r, st, fld) {
+		return "the link field of the chain is written after a link was created"
+	}
+	// the walk starts at the link below the receiver
+	for i, e := range link.Edges {
+		if l1.Blocks[link.Block().Preds[i]] {
+			continue
+		}
+		if _, f0, isStep := chainStep(e, recv); !isStep || f0 != fld {
+			return "the walk does not start at the link directly below the receiver"
+		}
+	}
+	ownKeyField := -1
+	keyOf := func(v ssa.Value, of ssa.Value) (int, bool) {
+		ld, ok := v.(*ssa.UnOp)
+		if !ok || ld.Op != token.MUL {
+			return 0, false
+		}
+		fa, ok := ld.X.(*ssa.FieldAddr)
+		if !ok || fa.X != of || fa.Field == fld {
+			return 0, false
+		}
+		return fa.Field, true
+	}
+	for i, e := range newestPhi.Edges {
+		if !l1.Blocks[newestPhi.Block().Preds[i]] {
+			// the one-element literal [recv.key]
+			sl, ok := e.(*ssa.Slice)
+			if !ok || sl.Low != nil || sl.High != nil {
+				return "the collected keys do not start as the one-element list of the receiver's own key"
+			}
+			al, ok := sl.X.(*ssa.Alloc)
+			if !ok || al.Referrers() == nil {
+				return "the collected keys do not start as the one-element list of the receiver's own key"
+			}
+			at, isArr := al.Type().Underlying().(*types.Pointer).Elem().Underlying().(*types.Array)
+			if !isArr || at.Len() != 1 {
+				return "the collected keys do not start as the one-element list of the receiver's own key"
+			}
+			for _, u := range *al.Referrers() {
+				if ia, ok := u.(*ssa.IndexAddr); ok {
+					for _, w := range *ia.Referrers() {
+						if st, ok := w.(*ssa.Store); ok {
+							if kf, isKey := keyOf(st.Val, recv); isKey {
+								ownKeyField = kf
+							} else {
+								return "the first collected key is not the receiver's own key"
+							}
+						}
+					}
+				}
+			}
+			continue
+		}
+		app, ok := e.(*ssa.Call)
+		if !ok || !an.IsCallTo(app, "builtin:append") || app.Call.Args[0] != ssa.Value(newestPhi) {
+			return "inside the collecting loop the list is not extended by append"
+		}
+		els := appendedElements(app)
+		if len(els) != 1 {
+			return "the collecting loop appends something other than the key of the current link"
+		}
+		kf, isKey := keyOf(els[0], link)
+		if !isKey || ownKeyField >= 0 && kf != ownKeyField {
+			return "the collecting loop appends something other than the key of the current link"
+		}
+		if ownKeyField < 0 {
+			ownKeyField = kf
+		}
+		for _, lt := range l1.Latch {
+			if !(app.Block() == lt || app.Block().Dominates(lt)) {
+				return "the collecting loop skips links"
+			}
+		}
+	}
+	// base: the Data below the last link walked
+	basePhi, ok := kc.Call.Value.(*ssa.Phi)
+	if !ok || basePhi.Block() != l1.Header {
+		return "Keys() is not asked of the Data below the last link of the chain"
+	}
+	dataBelow := func(v ssa.Value, of ssa.Value) bool {
+		if ld, ok := v.(*ssa.UnOp); ok && ld.Op == token.MUL {
+			if fa, ok := ld.X.(*ssa.FieldAddr); ok && fa.X == of && fa.Field == fld {
+				return true
+			}
+		}
+		if ex, ok := v.(*ssa.Extract); ok {
+			if c, ok := ex.Tuple.(*ssa.Call); ok {
+				m := c.Call.StaticCallee()
+				if m != nil && an.InModule(m) && m.Blocks != nil && len(c.Call.Args) > 0 && c.Call.Args[0] == of && len(m.Params) > 0 {
+					all := len(an.Returns(m)) > 0
+					for _, ret := range an.Returns(m) {
+						ld, ok := ret.Results[ex.Index].(*ssa.UnOp)
+						if !ok {
+							all = false
+							continue
+						}
+						fa, ok := ld.X.(*ssa.FieldAddr)
+						if !ok || fa.X != ssa.Value(m.Params[0]) || fa.Field != fld {
+							all = false
+						}
+					}
+					return all
+				}
+			}
+		}
+		return false
+	}
+	for i, e := range basePhi.Edges {
+		of := ssa.Value(link)
+		if !l1.Blocks[basePhi.Block().Preds[i]] {
+			of = recv
+		}
+		if !dataBelow(e, of) {
+			return "the Data whose Keys() come first is not the one below the last link walked"
+		}
+	}
+	return ""
+}
+
+// h0IsHelperField: the field belongs to a private struct type of the engine
+// that is not one of the compilers or compiled matchers (a builder object).
+func h0IsHelperField(fa *ssa.FieldAddr) bool {
+	t := an.ShortType(fa.X.Type())
+	return !strings.Contains(t, "ompiler") && !strings.Contains(t, "Matcher") && !strings.Contains(t, "Replacer")
 }
